@@ -42,16 +42,38 @@ def strain_expected(ref, variables, limit):
     return outcheck.select_fields(outcheck.from_ref(ref), comps, nlev=nlev)
 
 
-def run_one(mods, ref, variables, limit, ctx, outname='out', canary=False, schedule=None):
+def cli_argv(variables, limit, outname):
+    argv = ['colander', 'plt', '--variables'] + list(variables) + ['--output', outname]
+    if limit is not None:
+        argv += ['--limit_level', str(limit)]
+    return argv
+
+
+def run_one(mods, ref, variables, limit, ctx, outname='out', canary=False, schedule=None, cli=False):
     Colander = mods['amr_kitchen.colander.colander'].Colander
     Taster = mods['amr_kitchen.taste.taste'].Taster
     fs = SymFS()
     ref.write_symfs(fs, '/work/plt')
     obl = Obl(ctx)
     what = 'Colander(variables=%r, limit_level=%r)' % (variables, limit)
+    if cli:
+        what = ' '.join(cli_argv(variables, limit, outname))
     with patch.Patched(mods, fs, schedule=schedule), common.quiet():
         try:
-            Colander(plotfile='plt', limit_level=limit, output=outname, variables=list(variables)).strain()
+            if cli:
+                # the command-line entry point (argparse wiring of --variables / --limit_level / --output)
+                import sys
+                old_argv = sys.argv
+                sys.argv = cli_argv(variables, limit, outname)
+                try:
+                    mods['amr_kitchen.colander.cli'].main()
+                finally:
+                    sys.argv = old_argv
+            else:
+                Colander(plotfile='plt', limit_level=limit, output=outname, variables=list(variables)).strain()
+        except SystemExit as e:
+            obl.fail('%s exited with %r' % (what, e.code))
+            return obl, fs
         except Exception as e:
             obl.fail('%s raised %s: %s' % (what, type(e).__name__, str(e)[:120]))
             return obl, fs
@@ -100,7 +122,7 @@ def run_case(case):
     res = CaseResult()
     mods = common.mods()
     ref = families.make_ref('p', case['mesh'], case['fields'], layout=case['layout'], geom=case['geom'],
-                            ref_line_extra=case.get('ref_extra', 0))
+                            ref_line_extra=case.get('ref_extra', 0), level_prefix=case.get('level_prefix', 'Level_'))
     tier = common.TIER
     sels = selections(ref.fields, tier)
     limits = [None] + list(range(ref.nlev))
@@ -120,6 +142,20 @@ def run_case(case):
                     if sig not in viol:
                         viol[sig] = {'signature': sig, 'what': obl.failed[0][0], 'variables': variables, 'limit': limit}
 
+    # the same through the command line: one subset selection with the deepest limit below the finest level, one 'all'
+    for variables, limit in [(sels[1], max(0, ref.nlev - 2)), (['all'], None)]:
+        def cpath(ctx, variables=variables, limit=limit):
+            return run_one(mods, ref, variables, limit, ctx, cli=True)
+        results, exhaustive, stats = core.explore(cpath, max_paths=8)
+        res.add_explore(results, exhaustive, stats)
+        nruns += 1
+        for ctx, (obl, fs) in results:
+            res.add_obl(obl)
+            if obl.failed:
+                sig = signature(variables, limit, ref, obl.failed[0][0]).replace('C05/', 'C05/cli/')
+                if sig not in viol:
+                    viol[sig] = {'signature': sig, 'what': obl.failed[0][0], 'variables': variables, 'limit': limit, 'cli': True}
+
     def canary(ctx):
         return run_one(mods, ref, sels[1], None, ctx, canary=True)
     cres, _, _ = core.explore(canary, max_paths=2)
@@ -137,6 +173,9 @@ def run_case(case):
         ref.write_symfs(fs, '/work/plt')
         run = ("from amr_kitchen.colander.colander import Colander\n"
                "Colander(plotfile=os.path.join(IN, 'plt'), limit_level=%r, output=OUT, variables=%r).strain()\n" % (v['limit'], v['variables']))
+        if v.get('cli'):
+            run = ("import sys\nfrom amr_kitchen.colander import cli\nsys.argv = ['colander', os.path.join(IN, 'plt')] + %r\ncli.main()\n"
+                   % (cli_argv(v['variables'], v['limit'], '@OUT@')[2:],)).replace("'@OUT@'", 'OUT')
         d = replay_lib.make_tool_replay('C05', sig, v['what'], {'plt': (fs, '/work/plt')}, run,
                                         {'kind': 'tree', 'tree_exp': strain_expected(ref, v['variables'], v['limit']), 'compare': 'bits'})
         status, out = common.run_replay(d)
@@ -167,6 +206,13 @@ def cases():
             lays = families.all_layouts(3, 2 if tier == 'quick' else 3)
             for lay in lays:
                 out.append({'label': '%s/layout%s' % (m.name, lay), 'mesh': m, 'fields': UNIQUE_FIELD_SETS[1], 'layout': [lay], 'geom': 1})
+    # header numbers whose shortest repr needs 17 significant digits (copied text must round-trip)
+    for j, mm in enumerate([x for x in families.curated_meshes() if x.name in ('3d-2lev-nested', '2d-3lev')]):
+        out.append({'label': '%s/17-digit-geometry' % mm.name, 'mesh': mm, 'fields': ['density', 'temp'], 'layout': families.scatter_layouts(mm, rnd, 2), 'geom': 3, 'ref_extra': j})
+    # level directories under another name than Level_n
+    for j, mm in enumerate([x for x in families.curated_meshes() if x.name in ('3d-2lev-mixed', '2d-2lev')]):
+        out.append({'label': '%s/lev-prefix' % mm.name, 'mesh': mm, 'fields': ['density', 'temp'] if 'c05' in __name__ else families.FIELD_SETS[1 + j], 'layout': families.scatter_layouts(mm, rnd, 2), 'geom': j,
+                    'ref_extra': j, 'level_prefix': ['Lev_', 'amr_'][j]})
     for r in range(6 if tier == 'quick' else 200):
         nd = rnd.choice([2, 3])
         m = families.random_mesh(rnd, nd, max_levels=2 if tier == 'quick' else 3, max_boxes=4)
